@@ -5,7 +5,7 @@ probed numerically against the real function (translator self-test).  See pyexpr
 CAL = 'psiaudio/calibration.py'
 UTIL = 'psiaudio/util.py'
 SELF = ['self']
-KW = ['reference', 'attrs', 'fixed_gain', 'phase', 'fill_value']      # constructor keywords that do not enter the sensitivity
+KW = ['reference']      # constructor keywords (as used in the source) that do not enter the sensitivity
 
 SPEC = {
     'out': 'gen/CalibGen.v',
